@@ -5,7 +5,9 @@ package upload
 import (
 	"fmt"
 	"os"
+	"path/filepath"
 	"testing"
+	"time"
 
 	"golang.org/x/telemetry/internal/configtest"
 	"golang.org/x/telemetry/internal/verifrt"
@@ -15,16 +17,67 @@ import (
 // itself (go mod download from a file-based proxy holding the generated
 // config), then builds and uploads; same oracle as C01.seq.
 func TestVerifC01Public(t *testing.T) {
+	// The runs are made in child processes (batches): a panic on a goroutine of
+	// the uploader's own cannot be recovered by anybody and ends the process,
+	// which is a verdict (C05), not a failure of the harness.
+	const nb = 4
+	agg := verifrt.NewResult("c01pub")
+	verifrt.RunBatches("TestVerifC01Public", agg, nb, 0, 30*time.Minute, "host-process-died", func(b int, _ *verifrt.Result, cur *verifrt.Current) {
+		c01PublicBatch(t, b, nb, cur)
+	})
 	c := &seqChecks{c07: verifrt.NewResult("C07.public"), c01: verifrt.NewResult("C01.public"), c02: verifrt.NewResult("C02.viaRun"), c09: verifrt.NewResult("C09.viaRun")}
-	c.c01.Rule = "single-run scenarios of the C01.seq generator (mode on) executed through the public upload.Run: the upload configuration is served by a file-based module proxy and fetched by `go mod download` (RunConfig.Env), X is forced through the instrumented crypto/rand call; every request must equal reference filter(aggregate, fetched config, X) and carry no canary. distinct = scenarios with at least one request"
 	c05r := verifrt.NewResult("C05.viaRun")
-	c05r.Rule = "the same public upload.Run calls (mode on, configuration fetched through the go command), a third of them with a short-named foreign .json file in local/ on which the uploader's report handling gives up internally: Run must return normally, no panic may escape it. distinct = scenarios; non-trivial = scenario with the foreign file"
+	c01PublicRules(c, c05r)
+	for _, x := range []*verifrt.Result{c.c01, c.c07, c05r} {
+		parts, _ := filepath.Glob(filepath.Join(verifrt.OutDir(), x.Check+".pubpart*.json"))
+		for _, p := range parts {
+			if pr, err := verifrt.LoadResult(p); err == nil {
+				x.Merge(pr)
+			}
+			os.Remove(p)
+		}
+	}
+	for _, v := range agg.Violations {
+		c05r.Violate(v.Sig, "the process running the public upload.Run died: "+v.Msg, v.Replay)
+	}
+	for _, s := range agg.Inconclusive {
+		c05r.Inconc(s)
+	}
+	c.c01.Require("request-checked")
+	c.c01.Write()
+	c.c07.Require("stray-json-in-local")
+	c.c07.Write()
+	c05r.Require("stray-json-in-local")
+	c05r.Write()
+}
+
+func c01PublicRules(c *seqChecks, c05r *verifrt.Result) {
+	c.c01.Rule = "single-run scenarios of the C01.seq generator (mode on) executed through the public upload.Run: the upload configuration is served by a file-based module proxy and fetched by `go mod download` (RunConfig.Env), X is forced through the instrumented crypto/rand call; every request must equal reference filter(aggregate, fetched config, X) and carry no canary. distinct = scenarios with at least one request"
+	c05r.Rule = "the same public upload.Run calls (mode on, configuration fetched through the go command), a third of them with a short-named foreign .json file in local/ on which the uploader's report handling gives up internally: Run must return normally, no panic may escape it and the process must survive (the runs are made in child processes). distinct = scenarios; non-trivial = scenario with the foreign file"
+	c.c07.Rule = "the same runs judged for C07 (local reports equal the reference sums; files removed only once a report exists); a third of them with a short-named foreign .json file in local/. distinct = scenarios"
+}
+
+func c01PublicBatch(t *testing.T, batch, nb int, cur *verifrt.Current) {
+	c := &seqChecks{c07: verifrt.NewResult("C07.public"), c01: verifrt.NewResult("C01.public"), c02: verifrt.NewResult("C02.viaRun"), c09: verifrt.NewResult("C09.viaRun")}
+	c05r := verifrt.NewResult("C05.viaRun")
+	c01PublicRules(c, c05r)
+	for _, x := range []*verifrt.Result{c.c01, c.c07, c05r} {
+		x.SetFile(fmt.Sprintf("%s.pubpart%d.json", x.Check, batch))
+	}
+	defer func() {
+		c.c01.Write()
+		c.c07.Write()
+		c05r.Write()
+	}()
 	base := vtmp("c01p-")
 	defer os.RemoveAll(base)
 	n := verifrt.Scale(24, 600)
 	for i := 0; i < n; i++ {
-		if !verifrt.WantCase("C01.public", i) {
+		if !verifrt.WantCase("C01.public", i) || i%nb != batch {
 			continue
+		}
+		if cur != nil {
+			cur.Set(fmt.Sprintf("public Run case %d", i))
 		}
 		t.Run(fmt.Sprint(i), func(t *testing.T) {
 			rnd := verifrt.NewRand(verifrt.Seed(), fmt.Sprintf("c01pub/%d", i))
@@ -104,11 +157,4 @@ func TestVerifC01Public(t *testing.T) {
 			}
 		})
 	}
-	c.c01.Require("request-checked")
-	c.c01.Write()
-	c.c07.Rule = "the same runs judged for C07 (local reports equal the reference sums; files removed only once a report exists); a third of them with a short-named foreign .json file in local/. distinct = scenarios"
-	c.c07.Require("stray-json-in-local")
-	c.c07.Write()
-	c05r.Require("stray-json-in-local")
-	c05r.Write()
 }
